@@ -148,6 +148,7 @@ def step {V} (cfg : PCfg V) (s : PSt V) : Label V → Option (PSt V)
     match s.stack with
     | .fall _ .fin :: rest => some { s with stack := rest }
     | _ => none
+  | .bar => if s.stack.isEmpty ∧ s.reg = false then some s else none
 
 def run {V} (cfg : PCfg V) : PSt V → List (Label V) → Option (PSt V)
   | s, [] => some s
@@ -181,7 +182,7 @@ def d5History : List (Label Nat) :=
    .ins 5 1, .pack,                       -- main: evict (1,1); arguments packed
      .ins 5 1, .pack, .ret, .done,        -- handler inside the send: flushes (1,1) again
    .ret, .done,                           -- outer: frees the slot, overwrites it
-   .fb, .pack, .ret, .fe]                 -- barrier
+   .fb, .pack, .ret, .fe, .bar]           -- barrier
 
 example : (run cset4 .init d5History).map (fun s => (s.stack.length, s.reg, s.cache)) = some (0, false, []) := by decide
 example : received d5History = [(1, 1), (5, 1), (5, 1)] := by decide
@@ -192,7 +193,7 @@ theorem cache_loses : ownerCount (emitted cset4 .init d5History) 5 = 1 := by dec
 /-- the repaired order on the same history (one more `pack`/`ret`: the outer insert
 re-checks the slot, finds the handler's entry for its own key and combines) is exact -/
 def d5HistoryRepaired : List (Label Nat) :=
-  [.ins 1 1, .done, .ins 5 1, .pack, .ins 5 1, .done, .ret, .done, .fb, .pack, .ret, .fe]
+  [.ins 1 1, .done, .ins 5 1, .pack, .ins 5 1, .done, .ret, .done, .fb, .pack, .ret, .fe, .bar]
 example : (Cache.run (csetCfg 4) .init d5HistoryRepaired).map (fun s => (s.stack.length, s.reg, s.cache)) = some (0, false, []) := by decide
 example : ownerCount (Cache.emitted (csetCfg 4) .init d5HistoryRepaired) 1 = 1
     ∧ ownerCount (Cache.emitted (csetCfg 4) .init d5HistoryRepaired) 5 = 2 := by decide
@@ -206,7 +207,7 @@ def d6History : List (Label Nat) :=
    .ins 5 7, .pack,
      .ins 1 3, .done,                     -- handler: slot still holds key 1 → (1,13)
    .ret, .done,                           -- occupied := false; slot := (5,7)
-   .fb, .pack, .ret, .fe]
+   .fb, .pack, .ret, .fe, .bar]
 
 example : (run adapter4 .init d6History).map (fun s => (s.stack.length, s.reg, s.cache)) = some (0, false, []) := by decide
 /-- key 1 received 10 and 3, only 10 leaves the rank -/
@@ -222,7 +223,7 @@ def flagHistory : List (Label Nat) :=
   [.ins 1 1, .done, .ins 2 1, .done,
    .fb, .pack, .ret,                      -- slot 1 flushed
         .pack, .ins 1 1, .done, .ret,     -- slot 2: handler re-occupies slot 1
-   .fe]
+   .fe, .bar]                             -- the barrier returns with (1,1) still cached
 
 theorem flushAll_leaves_entry :
     (run cset4 .init flagHistory).map (fun s => (s.stack.length, s.reg, s.cache)) = some (0, false, [(1, (1, 1))]) := by
